@@ -8,6 +8,11 @@ BASELINE_OFF = ("cd /repo && cargo nextest run --workspace --no-fail-fast --test
 
 # id -> (engine, category, technique, level text, level note, design ref)
 CHECKS = {
+ "C01": ("E1/E4", "model_checking",
+         "exhaustive enumeration of the acceptance draw (all 2^24 f32 variates, injected through the public generator) and of a table alphabet of log-density / proposal-density values on the real step(); explicit finite kernels with exactly measured acceptance probabilities",
+         "Step level: all 1225 combinations of (log p(x), log p(y), log q(y|x), log q(x|y)) over {ln1,ln2,ln3,-745,-inf,+inf,NaN}^2 x {0,ln1/2,ln1/4,-inf,NaN}^2 for state types i32/f32/f64 (incl. -0.0, NaN-payload and subnormal encodings of x) and float types f32/f64, with u at 0, the exact accept/reject threshold and its 3 neighbours either side, 1-ulp; the chain ends at y iff ln u < ratio (IEEE semantics), else bit-identical to x. For f32 every one of the 16,777,216 variates is executed for 9 ratio classes. Kernel level: on finite spaces (K=2 quick, 2..4 thorough; symmetric, asymmetric, one-directional proposals, zero-probability states) A(x,y) is measured exactly as #accepting variates / 2^24 for every proposable pair and detailed balance / pi P = pi are checked.",
+         "Draw injection through the public `rng` field with a crafted xoshiro state; the premise (a step consumes exactly that output) is verified on every execution and its failure is a machinery error, not a verdict.",
+         "DESIGN.md §3 C01"),
  "C05": ("E1/E4", "model_checking",
          "explicit-state construction of the exact one-sweep kernel by enumerating EVERY outcome sequence of the real step() (scripted conditional) + list-model check of the call log for every dimension 1..64",
          "(a) A recording conditional logs (index, copy of the state it was given) and returns a fresh unique value; for every dimension 1..64, 1-3 steps, f64 (incl. NaN/-0/inf states), f32, i32 and 2-4 chains through GibbsSampler::run the log must equal the list model (each coordinate once, in order, freshest state, nothing else changed). (b) For finite joints (all 255 weight tables over {0..3} on {0,1}^2, structured tables with zeros on {0,1}^3, {0,1,2}^2, thorough also {0,1}^4, {0,1,2}^3) every outcome sequence of one sweep from every positive-probability state is executed on the real chain with its exact probability, giving the exact kernel P; pi P = pi is checked to 1e-12.",
@@ -23,6 +28,11 @@ CHECKS = {
          "For every n_chains 2..64 (thorough; quick {2,3,8,64}) x seeds {unseeded,0,1,42,2^32,u64::MAX-40,u64::MAX-1,u64::MAX}, with all chains started from one common state: MH (library proposal): proposal generators, first proposals, acceptance generators and 64-step trajectories pairwise distinct; MH with a user-defined seedable proposal: acceptance generator never equal to the proposal generator of the same chain, proposal generators pairwise distinct; HMC: recorded momentum rows and acceptance uniforms of every step pairwise distinct across rows, trajectories distinct; NUTS: trajectories pairwise distinct.",
          "Unseeded construction uses OS entropy (not owned by the harness); oracle is value-insensitive pairwise inequality (collision probability ~2^-64).",
          "DESIGN.md §3 C08"),
+ "C09": ("E3", "model_checking",
+         "exploration of ALL histories of run(n_collect,n_discard) calls (prefix tree over a cloned counting sampler) against a counter model; differential continuation oracle on the real MH / Gibbs / HMC / NUTS samplers",
+         "(A) a user-defined counting MarkovChain under ChainRunner::run for n_chains {1,2,3,5,8,32} x dim {1,2,16}: every history of <= 2 (quick; 3 over a reduced alphabet) / 3 (thorough) run calls with n_collect, n_discard in 0..6; shape, row<->initial state, entry k = state after exactly n_discard+k+1 transitions, not one transition more, continuation. (B) MH, Gibbs, HMC: run(a,d); run(b,0) == run(a+b,d) == manual stepping, bit for bit, all a,b,d <= 2 (quick) / 3 (thorough), 1 and 3 chains, sampler left at the last returned state. (C) NUTSChain: row k = recorded position after n_discard+k transitions, exactly n_collect+n_discard-1 transitions, next run starts from the last row; NUTS::run == its chains run individually for 1..8 chains.",
+         "NUTS per-transition positions come from the verif record hook 'nuts.end'.",
+         "DESIGN.md §3 C09"),
  "C11": ("E4", "model_checking",
          "bounded-exhaustive input enumeration (all arrays over a 4-letter alphabet for small shapes) + enumerated structured families, against an independent f64 reference and metamorphic oracles",
          "Every array over {-1,0,1,2} of the listed small shapes (quick 1.4e5, thorough 3.5e7 arrays) and every member of fixed structured families up to 16 chains x 5000 draws x 8 parameters is evaluated on the real split_rhat_mean_ess / RunStats / basic_stats and compared with sqrt(var+/W) computed in f64 on the half-chains (either variance-divisor convention, but one and the same on all inputs), plus lower bound, separation ladder, affine/permutation/other-parameter invariance and the run-summary order statistics incl. NaN robustness at every subset of positions.",
